@@ -74,9 +74,14 @@ bool WARCReader::Read(std::string &out) {
       UTIL_THROW_IF2(seen_content_length, "Two Content-Length headers?");
       seen_content_length = true;
       char *end;
-      const long long parsed = std::strtoll(line.data() + kContentLengthLength, &end, 10);
+      const char *const value = line.data() + kContentLengthLength;
+      const long long parsed = std::strtoll(value, &end, 10);
       // TODO: tolerate whitespace?
-      UTIL_THROW_IF2(end != line.data() + line.size(), "Content-Length parse error in `" << line << '\'');
+      // strtoll skips white space including the line terminator, so without a
+      // digit on this line it would either convert digits of a following line
+      // or convert nothing (end == value): an empty value was taken as 0 or
+      // rejected depending on how much of the stream was already buffered.
+      UTIL_THROW_IF2(end == value || end != line.data() + line.size(), "Content-Length parse error in `" << line << '\'');
       UTIL_THROW_IF2(parsed < 0, "Negative Content-Length in `" << line << '\'');
       length = parsed;
     }
